@@ -37,7 +37,7 @@ class C15(Plugin):
     pid = "C15"
     entry = 15
     prop = 15
-    counts = {"quick": 2500, "thorough": 80000}
+    counts = {"quick": 2500, "thorough": 250000}
     rule = ("case = (prefix without ':', identifier, name, two more (prefix, identifier) pairs, a separator, an arbitrary string to parse, an "
             "optional converter as validation context); identifiers empty / with colons / CR / LF / tab / quotes / commas / backslash / Unicode. "
             "Observed on ReferenceTuple, Reference, NamableReference, NamedReference: curie, from_curie round trip, from_curie with another "
